@@ -59,21 +59,21 @@ func DecisionPaths(fn *ssa.Function, limit int) ([]DPath, error) {
 		case *ssa.Panic:
 			out = append(out, DPath{Blocks: blocks, Lits: lits, Panic: x})
 		case *ssa.If:
-			cond := x.Cond
-			neg := false
-			for {
-				u, ok := cond.(*ssa.UnOp)
-				if !ok || u.Op != token.NOT {
-					break
-				}
-				cond, neg = u.X, !neg
-			}
+			cond, neg := condOnPath(x.Cond, blocks)
 			for i, s := range b.Succs {
 				val := i == 0
 				if neg {
 					val = !val
 				}
-				nl := append(append([]Lit(nil), lits...), Lit{Cond: cond, Val: val, If: x})
+				nl := lits
+				if k, isK := cond.(*ssa.Const); isK && k.Value != nil {
+					// a materialised && / || whose value is fixed by the way the block was entered
+					if (k.Value.String() == "true") != val {
+						continue // infeasible
+					}
+				} else {
+					nl = append(append([]Lit(nil), lits...), Lit{Cond: cond, Val: val, If: x})
+				}
 				if err := walk(s, blocks, nl); err != nil {
 					return err
 				}
@@ -89,6 +89,43 @@ func DecisionPaths(fn *ssa.Function, limit int) ([]DPath, error) {
 		return nil, err
 	}
 	return out, nil
+}
+
+// condOnPath strips negations from a branch condition and resolves a boolean phi (a materialised && / ||, as
+// the compiler emits for tagless switch cases) by the edge through which the path entered the phi's block.
+func condOnPath(cond ssa.Value, blocks []*ssa.BasicBlock) (ssa.Value, bool) {
+	neg := false
+	for i := 0; i < 8; i++ {
+		if u, ok := cond.(*ssa.UnOp); ok && u.Op == token.NOT {
+			cond, neg = u.X, !neg
+			continue
+		}
+		phi, ok := cond.(*ssa.Phi)
+		if !ok {
+			break
+		}
+		idx := -1
+		for k, b := range blocks {
+			if b == phi.Block() {
+				idx = k
+			}
+		}
+		if idx <= 0 {
+			break
+		}
+		pred := blocks[idx-1]
+		found := false
+		for k, pb := range phi.Block().Preds {
+			if pb == pred {
+				cond, found = phi.Edges[k], true
+				break
+			}
+		}
+		if !found {
+			break
+		}
+	}
+	return cond, neg
 }
 
 // OnPath resolves phis of v according to the blocks the path went through.
@@ -179,12 +216,20 @@ func ExpandLit(l Lit, depth int, stop func(*ssa.Function) bool) [][]Lit {
 		for _, hl := range p.Lits {
 			lits = append(lits, Lit{Cond: hl.Cond, Val: hl.Val, If: hl.If, Tr: tr})
 		}
+		want := l.Val
+		for {
+			u, ok := res.(*ssa.UnOp)
+			if !ok || u.Op != token.NOT {
+				break
+			}
+			res, want = p.OnPath(Strip(u.X)), !want
+		}
 		if k, ok := res.(*ssa.Const); ok && k.Value != nil {
-			if (k.Value.String() == "true") != l.Val {
+			if (k.Value.String() == "true") != want {
 				continue
 			}
 		} else {
-			lits = append(lits, Lit{Cond: res, Val: l.Val, If: l.If, Tr: tr})
+			lits = append(lits, Lit{Cond: res, Val: want, If: l.If, Tr: tr})
 		}
 		// expand nested helpers
 		expanded := [][]Lit{{}}
@@ -232,6 +277,71 @@ func DecisionPathsInl(fn *ssa.Function, limit, depth int, stop func(*ssa.Functio
 			q.Lits = v
 			out = append(out, q)
 		}
+	}
+	return out, nil
+}
+
+// PathsBetween enumerates the acyclic CFG paths from block `from` to block `to` (both inclusive), with the
+// branch literals taken on the way.
+func PathsBetween(from, to *ssa.BasicBlock, limit int) ([]DPath, error) {
+	var out []DPath
+	onPath := map[*ssa.BasicBlock]bool{}
+	reach := map[*ssa.BasicBlock]bool{}
+	// blocks from which `to` is reachable
+	var mark func(b *ssa.BasicBlock)
+	mark = func(b *ssa.BasicBlock) {
+		if reach[b] {
+			return
+		}
+		reach[b] = true
+		for _, p := range b.Preds {
+			mark(p)
+		}
+	}
+	mark(to)
+	var walk func(b *ssa.BasicBlock, blocks []*ssa.BasicBlock, lits []Lit) error
+	walk = func(b *ssa.BasicBlock, blocks []*ssa.BasicBlock, lits []Lit) error {
+		if onPath[b] || !reach[b] {
+			return nil
+		}
+		if len(out) > limit {
+			return fmt.Errorf("more than %d paths", limit)
+		}
+		blocks = append(append([]*ssa.BasicBlock(nil), blocks...), b)
+		if b == to {
+			out = append(out, DPath{Blocks: blocks, Lits: lits})
+			return nil
+		}
+		onPath[b] = true
+		defer delete(onPath, b)
+		last := b.Instrs[len(b.Instrs)-1]
+		if x, ok := last.(*ssa.If); ok {
+			cond, neg := condOnPath(x.Cond, blocks)
+			for i, s := range b.Succs {
+				val := (i == 0) != neg
+				nl := lits
+				if k, isK := cond.(*ssa.Const); isK && k.Value != nil {
+					if (k.Value.String() == "true") != val {
+						continue
+					}
+				} else {
+					nl = append(append([]Lit(nil), lits...), Lit{Cond: cond, Val: val, If: x})
+				}
+				if err := walk(s, blocks, nl); err != nil {
+					return err
+				}
+			}
+			return nil
+		}
+		for _, s := range b.Succs {
+			if err := walk(s, blocks, lits); err != nil {
+				return err
+			}
+		}
+		return nil
+	}
+	if err := walk(from, nil, nil); err != nil {
+		return nil, err
 	}
 	return out, nil
 }
